@@ -186,7 +186,7 @@ fn recomp_case(rt: &tokio::runtime::Runtime, dir: &Path, case: &Value, n: usize)
 	// payload id of delivered bytes: decode with the DECLARED codec, compare with the raw source payload
 	let raw: std::collections::HashMap<Vec<u8>, u32> = src.tiles.iter().map(|t| t.3).collect::<BTreeSet<_>>().into_iter().map(|p| {
 		let (size, compr) = class_of(&c, p);
-		(payload(p, size, compr), p)
+		(payload_c(p, size, compr), p)
 	}).collect();
 	let id_of = |bytes: &[u8], codec: &str| -> i64 {
 		match indep::decode(codec, bytes) {
